@@ -161,3 +161,52 @@ def replay(ck):
     ck.cov['rule'] = 'replay of one stored case'
     if v.startswith('DISAGREE'):
         ck.violation(rp.get('key', 'replay'), r, 'replayed case still disagrees: ' + v)
+
+
+def mixed_ids_stream(ck, label, n):
+    """Targeted stream: a dataset∘dataset operator whose operands have DIFFERENT identifier sets (one a subset of the
+    other, either side), used inline as the operand of another dataset-level operator, and the same computation written
+    as two statements.  -> results in the format of run_stream."""
+    r = ck.rng
+    g = G.Gen(r, families=['num1'])
+    cases = []
+    for i in range(n):
+        mt = r.choice(['Number', 'Integer'])
+        meas = [('Me_1', mt)]
+        full = [('Id_1', 'Integer'), ('Id_2', 'String')]
+        env = {}
+        shapes = {'DS_1': full, 'DS_2': full[:1], 'DS_3': r.choice([full, full, full[:1]])}
+        for nme, ids in shapes.items():
+            keys = set()
+            for _ in range(r.choice([2, 3, 4, 6])):
+                keys.add(tuple(r.choice(G.ID_INT) if t == 'Integer' else r.choice(G.ID_STR) for _, t in ids))
+            rows = [tuple(list(k) + [g.value(mt)]) for k in sorted(keys)]
+            r.shuffle(rows)
+            env[nme] = {'ids': list(ids), 'meas': list(meas), 'rows': rows}
+        op1, sx1 = r.choice([('+', 'add'), ('-', 'sub'), ('*', 'mul')])
+        a, b = ('DS_1', 'DS_2') if i % 2 == 0 else ('DS_2', 'DS_1')
+        inner_vtl = '(%s %s %s)' % (a, op1, b)
+        inner_sx = '(zip (ds %s) (ds %s) (bin %s hole hole2) _)' % (a, b, sx1)
+        kind = r.choice(['zip', 'zip', 'zip_rev', 'unary', 'scalar'])
+        flat = (i % 4 == 3)
+        src_vtl, pre = (inner_vtl, []) if not flat else ('T_1', ['T_1 := %s;' % inner_vtl])
+        if kind in ('zip', 'zip_rev'):
+            op2, sx2 = r.choice([('+', 'add'), ('-', 'sub'), ('*', 'mul')])
+            if kind == 'zip':
+                vtl, sx = '(%s %s DS_3)' % (src_vtl, op2), '(zip %s (ds DS_3) (bin %s hole hole2) _)' % (inner_sx, sx2)
+            else:
+                vtl, sx = '(DS_3 %s %s)' % (op2, src_vtl), '(zip (ds DS_3) %s (bin %s hole hole2) _)' % (inner_sx, sx2)
+            ops = ['zip_' + sx1, 'zip_' + sx2]
+        elif kind == 'unary':
+            f, sxop = r.choice([('abs(%s)', 'abs'), ('(-%s)', 'neg')])
+            vtl, sx = f % src_vtl, '(mapm %s (un %s hole) _)' % (inner_sx, sxop)
+            ops = ['zip_' + sx1, sxop]
+        else:
+            c = r.choice([1, 2, 3])
+            vtl, sx = '(%s + %d)' % (src_vtl, c), '(mapm %s (bin add hole (const (i %d))) _)' % (inner_sx, c)
+            ops = ['zip_' + sx1, 'add']
+        cases.append({'family': 'num1', 'env': env, 'vtl': ' '.join(pre + ['DS_r <- %s;' % vtl]), 'sx': sx, 'ops': ops, 'max_meas': 1,
+                      'post': None, 'ids': full, 'meas': meas, 'flat': flat, 'depth': 2, 'stream': label})
+    answers = ck.driver('Sem', [G.request(c) for c in cases])
+    outs = R.run_engine(cases)
+    return [(c, ) + tuple(R.compare(c, a, e)) + (e, a) for c, a, e in zip(cases, answers, outs)]
